@@ -55,6 +55,16 @@ func shadowForms(name, call string) []string {
 		"param f; const c = \"k\"; " + name + " := f; g := func() { y := 1; return func() { return c + " + cl + " } }; return g()()",
 		"param f; const c = \"k\"; " + name + " := f; g := func() { y := " + cl + "; return func() { return c + " + cl + " } }; return g()()",
 		"param f; const c = \"k\"; g := func() { return c + " + cl + " }; " + name + " := f; return [g(), c + " + cl + "]",
+		// the try, catch and finally blocks of one try statement share ONE scope: a name bound in the
+		// try block is still bound in its catch and finally blocks (and unbound again after the statement)
+		"param f; try { " + name + " := f; throw 1 } catch { " + use + " }",
+		"param f; try { " + name + " := f } finally { " + use + " }",
+		"param f; try { " + name + " := f; throw 1 } catch e { x := " + cl + "; return x } finally { y := " + cl + " }",
+		"param f; try { throw f } catch " + name + " { } finally { " + use + " }",
+		"param f; try { try { " + name + " := f; throw 1 } finally { z := " + cl + " } } catch { " + use + " }",
+		"param f; r := 0; try { " + name + " := f; r = " + cl + " } catch { }; return [r, " + cl + "]",
+		"param f; try { var " + name + " = f; throw 1 } catch { if true { " + use + " } }",
+		"param f; try { " + name + " := f; throw 1 } catch { return func() { " + use + " }() }",
 	}
 }
 
@@ -62,7 +72,7 @@ func init() {
 	register(&Stream{
 		Name: "optshadow",
 		Run: func(c *Ctx) {
-			c.Rule("constant conditions (37 values incl. NaN, -0.0, empty containers, folded builtin calls) x 10 control forms (if/else-if with init statement, ?:, &&, ||, for) x budgets; binding forms (30, incl. const-in-scope and fold-then-shadow sequences) x foldable builtins (18) x call shapes (constant and non-constant operands) x optimizer budgets {default,1,2,5}: optimized vs unoptimized outcome on the implementation; every case is non-trivial; distinct = (form, builtin, call shape)")
+			c.Rule("constant conditions (37 values incl. NaN, -0.0, empty containers, folded builtin calls) x 10 control forms (if/else-if with init statement, ?:, &&, ||, for) x budgets; binding forms (38, incl. const-in-scope and fold-then-shadow sequences, names bound in a try block and used in its catch/finally blocks) x foldable builtins (18) x call shapes (constant and non-constant operands) x optimizer budgets {default,1,2,5}: optimized vs unoptimized outcome on the implementation; every case is non-trivial; distinct = (form, builtin, call shape)")
 			f := &ugo.Function{Name: "f", Value: func(args ...ugo.Object) (ugo.Object, error) {
 				return ugo.String(fmt.Sprintf("F%d", len(args))), nil
 			}}
